@@ -85,14 +85,14 @@ def describe(sess, evs, idx):
     return key, "pool session (%s): event #%s %s is not a step of Pool (session %s)" % (kind, idx, json.dumps(ev)[:240], evs[0].get("id"))
 
 
-def run_sessions(run, sessions, label, quiet="2ms"):
-    binary = run.go_build("pooldrv")
+def run_sessions(run, sessions, label, quiet="2ms", cfg="PoolTrace.cfg", race=False):
+    binary = run.go_build("pooldrv", race=race)
     sp = os.path.join(run.scratch, "sessions-%s.ndjson" % label)
     tp = os.path.join(run.scratch, "traces-%s.ndjson" % label)
     write_ndjson(sp, sessions)
     by_id = {s["id"]: s for s in sessions}
     faults = run_driver(run, binary, sp, tp, quiet=quiet)
-    ns, nev, rejected = validate_traces(run, "PoolTrace.tla", "PoolTrace.cfg", tp)
+    ns, nev, rejected = validate_traces(run, "PoolTrace.tla", cfg, tp)
     run.log("%s: %d sessions, %d events validated, %d rejected, %d driver faults" % (label, ns, nev, len(rejected), len(faults)))
     hung = [(sid, evs) for sid, evs, idx in rejected if any(e.get("ev") == "timeout" for e in evs)]
     confirmed = set()
@@ -239,6 +239,9 @@ def check_c17(run):
         sessions.append({"id": 100000 + i, "kind": "capacity", "min": mn, "max": mx, "model": rng.randint(1, 4), "rules": [],
                          "gated": rng.random() < 0.85, "checkv": False, "gatehooks": rng.random() < 0.5, "timeout": 6,
                          "script": script})
+    if getattr(run, "collect", None) is not None:
+        run.collect["capacity"] = sessions
+        return 0
     ns = run_sessions(run, sessions, "capacity")
 
     def corrupt(evs):     # the same instance handed to a second request while still held
@@ -296,6 +299,9 @@ def check_c06(run):
         script.append({"op": "quiesce"})
         sessions.append({"id": 100000 + i, "kind": "isolation", "min": mn, "max": mx, "model": rng.randint(1, 4), "rules": [],
                          "gated": rng.random() < 0.8, "checkv": False, "script": script})
+    if getattr(run, "collect", None) is not None:
+        run.collect["isolation"] = sessions
+        return 0
     ns = run_sessions(run, sessions, "isolation")
 
     def corrupt(evs):     # a rule observed the object of another request under one of the keys
@@ -416,6 +422,9 @@ def check_c16(run):
         mn = rng.randint(1, 3)
         rec = {"min": mn, "max": mn + rng.randint(1, 3), "ops": [rng.choice(ops) for _ in range(rng.randint(3, 7))]}
         sessions.append(manage_session(100000 + i, rec, rng))
+    if getattr(run, "collect", None) is not None:
+        run.collect["manage"] = sessions
+        return 0
     ns = run_sessions(run, sessions, "manage")
 
     def corrupt(evs):     # a query answers with the previous version
@@ -569,6 +578,9 @@ def check_c07(run):
             script.append({"op": "quiesce"})
         sessions.append({"id": 100000 + i, "kind": "updates", "min": mn, "max": mx, "model": rng.randint(1, 4),
                          "rules": V(1, tuple(names)), "gated": True, "checkv": True, "script": script})
+    if getattr(run, "collect", None) is not None:
+        run.collect["updates"] = sessions
+        return 0
     ns = run_sessions(run, sessions, "updates")
 
     def corrupt(evs):     # one rule of an execution reports the body of another version
